@@ -1,6 +1,447 @@
-"""E4 - provenance / taint helpers over the interpreter's normalised value texts."""
+"""E4 - provenance / taint helpers over the interpreter's normalised value texts.
+
+Everything here works on *values* (the interpreter's rendered terms), never on source text:
+  * run_roles        interpret a function with its parameters bound by POSITION to role names chosen by the rule, and locally
+                     constructed objects named after their class - local / parameter names of the source do not reach the texts
+  * norm_term        spelling-independent form of a byte term (single constant octets are constants, adjacent constants merge)
+  * split_items / concat_parts / split_args   structure of a rendered term
+  * int_equiv        a rendered integer expression equals a reference function on sample points (checker-side folding)
+  * BoolFn           truth-table view of a rendered condition (De Morgan, operand order, != vs not == do not matter)
+  * entropy_call / leaks / strip_calls         entropy classifier and "escapes other than through an encrypting call"
+"""
+import ast
+import itertools
 import re
 
+from .interp import Interp, Scenario, Sym, Const, Bytes, ListV, Obj, render
+from .loader import AnalysisError, dotted
+
+noinline = lambda f: False  # noqa: E731
+
+
+# ------------------------------------------------------------------------------------------------ role binding
+def run_roles(prog, fi, roles, vararg=None, kwarg=None, args=None, **sc):
+    """Interpret `fi` with its positional parameters named by `roles` (receiver first for methods).
+
+    roles[i] becomes the symbol of the i-th positional parameter whatever it is called in the source; `args` maps a ROLE to
+    a Val (scenario facts about a parameter); `vararg` is a list of role names for the elements of *args; `kwarg` the role of
+    **kwargs.  Returns the final states.  Objects constructed locally are named <Class> / <Class#k> (canonical_objs)."""
+    params = list(fi.params)
+    if len(params) < len(roles):
+        raise AnalysisError('%s: signature changed (%d positional parameters, %d expected)' % (fi.qualname, len(params), len(roles)))
+    node = fi.node
+    decs = [dotted(d) for d in node.decorator_list]
+    is_method = fi.cls is not None and 'staticmethod' not in decs
+    sc.setdefault('inline', noinline)
+    sc.setdefault('canonical_objs', True)
+    sc.setdefault('extended', True)
+    scen = Scenario(**sc)
+    overrides = dict(args or {})
+    call_args = {}
+    self_val = None
+    rl = list(roles)
+    if is_method and params:
+        params.pop(0)
+        first = rl.pop(0) if rl else 'self'
+        if 'classmethod' not in decs:
+            self_val = overrides.get(first) or Sym(first, cls=scen.self_cls or fi.cls, nonnull=True)
+    for name, role in zip(params, rl):
+        call_args[name] = overrides.get(role) or Sym(role)
+    # parameters the rule knows nothing about (added by a refactoring, never passed by the existing callers) hold their default
+    a = node.args
+    pos_all = [x.arg for x in a.posonlyargs + a.args]
+    dflt = dict(zip(pos_all[len(pos_all) - len(a.defaults):], a.defaults)) if a.defaults else {}
+    dflt.update({x.arg: d for x, d in zip(a.kwonlyargs, a.kw_defaults) if d is not None})
+    for name, d in dflt.items():
+        if name in call_args or name in params[:len(rl)]:
+            continue
+        if _passed_somewhere(prog, fi, name, pos_all.index(name) - (1 if is_method else 0) if name in pos_all else None):
+            continue            # some caller does pass it: it stays an unknown
+        if isinstance(d, ast.Constant):
+            call_args[name] = Bytes([('C', d.value)]) if isinstance(d.value, bytes) else Const(d.value)
+        elif dotted(d) is not None:
+            call_args[name] = Sym(dotted(d))
+    if node.args.vararg is not None and vararg is not None:
+        call_args['*'] = ListV([overrides.get(r) or Sym(r) for r in vararg], 'tuple')
+    if node.args.kwarg is not None and kwarg is not None:
+        call_args['**'] = Sym(kwarg)
+    return Interp(prog, scen).run(fi, self_val=self_val, args=call_args)
+
+
+def _passed_somewhere(prog, fi, name, index):
+    """Does any call of a function with fi's name in the package pass parameter `name` (by keyword, by position `index`, or through
+    * / ** arguments)?"""
+    cache = prog.__dict__.setdefault('_calls_by_name', {})
+    if fi.name not in cache:
+        calls = []
+        for m in prog.modules.values():
+            for n in ast.walk(m.tree):
+                if isinstance(n, ast.Call):
+                    f = n.func
+                    fn = f.attr if isinstance(f, ast.Attribute) else (f.id if isinstance(f, ast.Name) else None)
+                    if fn is not None:
+                        cache.setdefault(fn, []).append(n)
+        cache.setdefault(fi.name, calls)
+    ndefs = sum(1 for f in prog.all_functions() if f.name == fi.name)
+    total = len(fi.params) - (1 if fi.cls is not None and 'staticmethod' not in [dotted(d) for d in fi.node.decorator_list] else 0)
+    for c in cache.get(fi.name, []):
+        if any(k.arg == name for k in c.keywords):
+            return True
+        star = any(k.arg is None for k in c.keywords) or any(isinstance(a, ast.Starred) for a in c.args)
+        if star and ndefs == 1:
+            return True         # the only function of that name, called with * / ** arguments: it may receive anything
+        npos = sum(1 for a in c.args if not isinstance(a, ast.Starred))
+        if index is not None and index < npos <= total and not (star and ndefs > 1):
+            return True
+    return False
+
+
+def objects(state):
+    """{canonical object name: Obj} for the objects constructed on this path."""
+    return {v.name: v for v in state.env.values() if isinstance(v, Obj)}
+
+
+def obj_of_class(state, text, *class_names):
+    """Is `text` the name of a locally constructed object whose class (or a base) is one of class_names?"""
+    o = objects(state).get(text)
+    if o is None or o.cls is None:
+        return False
+    have = {c.name for c in o.cls.mro()}
+    return any(n in have for n in class_names)
+
+
+def expand_objs(state, text):
+    """Replace names of locally constructed objects by their constructor text (for value objects such as MPI(x))."""
+    objs = objects(state)
+    for _ in range(3):
+        new = re.sub(r'<[A-Za-z_][A-Za-z0-9_]*(?:#\d+)?>', lambda m: objs[m.group(0)].text if m.group(0) in objs else m.group(0), text)
+        if new == text:
+            break
+        text = new
+    return text
+
+
+def bind_call(call, names):
+    """{parameter name: argument text} of a recorded call, positional and keyword arguments alike (names: the callee's parameters in
+    order, without the receiver).  Surplus positional arguments are returned under '*'."""
+    pos, kw = list(call[1]), dict(call[2])
+    out = dict(zip(names, pos))
+    if len(pos) > len(names):
+        out['*'] = pos[len(names):]
+    for k, v in kw.items():
+        out['!dup' if k in out else k] = v
+    return out
+
+
+def call_text(call):
+    """The text the interpreter gives the result of an opaque call."""
+    return '%s(%s)' % (call[0], ', '.join(list(call[1]) + ['%s=%s' % kv for kv in call[2].items()]))
+
+
+def calls_named(state, name):
+    """Recorded calls of the function `name`, however it was reached (bare name or module.name)."""
+    return [c for c in state.calls if c[0] == name or c[0].endswith('.' + name)]
+
+
+def draws(state, suffix):
+    """Calls of an entropy source on this path (by the last component(s) of the callee text)."""
+    return [c for c in state.calls if c[0] == suffix or c[0].endswith('.' + suffix)]
+
+
+# ------------------------------------------------------------------------------------------------ term structure
+def _one_octet_ints(t):
+    """INT(1;x) and LEN(1;x) are single octets: BYTE(x) / BYTE(len(x))."""
+    for head, fmt in (('INT(1;', 'BYTE(%s)'), ('LEN(1;', 'BYTE(len(%s))')):
+        pos = 0
+        while True:
+            i = t.find(head, pos)
+            if i < 0:
+                break
+            if i > 0 and (t[i - 1].isalnum() or t[i - 1] == '_'):
+                pos = i + 1
+                continue
+            j, d = i + len(head), 1
+            while j < len(t) and d:
+                d += t[j] in '([{'
+                d -= t[j] in ')]}'
+                j += 1
+            if d:
+                break
+            t = t[:i] + fmt % t[i + len(head):j - 1] + t[j:]
+            pos = i + 1
+    return t
+
+
+def _len_relative_slices(t):
+    """SLICE(x;len(x) - k;) is SLICE(x;-k;), SLICE(x;a;len(x) - k) is SLICE(x;a;-k), SLICE(x;a;len(x)) is SLICE(x;a;)  (in-bounds reading)."""
+    from .interp import lin_parse
+    pos = 0
+    while True:
+        i = t.find('SLICE(', pos)
+        if i < 0:
+            return t
+        j, d = i + 6, 1
+        while j < len(t) and d:
+            d += t[j] in '([{'
+            d -= t[j] in ')]}'
+            j += 1
+        if d:
+            return t
+        parts = _split_top(t[i + 6:j - 1], ';')
+        if len(parts) == 3:
+            inner, lo, hi = parts
+            L = 'len(%s)' % inner
+            new = []
+            for which, b in (('lo', lo), ('hi', hi)):
+                if b and L in b:
+                    try:
+                        terms, c = lin_parse(b)
+                    except Exception:
+                        terms, c = None, 0
+                    if terms == {L: 1} and c < 0:
+                        b = str(c)
+                    elif terms == {L: 1} and c == 0 and which == 'hi':
+                        b = ''
+                new.append(b)
+            rep_ = 'SLICE(%s;%s;%s)' % (inner, new[0], new[1])
+            t = t[:i] + rep_ + t[j:]
+        pos = i + 6
+
+
+def norm_term(text):
+    """Spelling-independent form of a rendered byte term: BYTE(<int literal>) is the constant octet, a one-octet INT / LEN is a BYTE,
+    adjacent constants are one constant."""
+    if text is None:
+        return None
+    text = _len_relative_slices(_one_octet_ints(text))
+    text = text.replace('binascii.a2b_hex(', 'binascii.unhexlify(').replace('binascii.b2a_hex(', 'binascii.hexlify(')
+    t = re.sub(r'\bBYTE\((\d+)\)', lambda m: 'C(%02x)' % int(m.group(1)) if int(m.group(1)) < 256 else m.group(0), text)
+    while True:
+        new = re.sub(r'\bC\(([0-9a-f]*)\) C\(([0-9a-f]*)\)', r'C(\1\2)', t)
+        if new == t:
+            return t
+        t = new
+
+
+def _split_top(text, sep):
+    out, d, cur, q = [], 0, '', None
+    i = 0
+    while i < len(text):
+        ch = text[i]
+        if q:
+            cur += ch
+            if ch == '\\' and i + 1 < len(text):
+                cur += text[i + 1]
+                i += 1
+            elif ch == q:
+                q = None
+        elif ch in '\'"':
+            q = ch
+            cur += ch
+        elif ch in '([{':
+            d += 1
+            cur += ch
+        elif ch in ')]}':
+            d -= 1
+            cur += ch
+        elif d == 0 and text.startswith(sep, i):
+            out.append(cur)
+            cur = ''
+            i += len(sep) - 1
+        else:
+            cur += ch
+        i += 1
+    out.append(cur)
+    return out
+
+
+def split_items(text):
+    """Top-level items of a rendered byte term ('INT(1;a) b C(00)' -> ['INT(1;a)', 'b', 'C(00)'])."""
+    return [x for x in _split_top(norm_term(text or ''), ' ') if x]
+
+
+def split_args(text):
+    """Top-level arguments of 'f(a, g(b, c))' -> ('f', ['a', 'g(b, c)']) ; None when text is not a call as a whole."""
+    text = (text or '').strip()
+    if not text.endswith(')'):
+        return None
+    d = 0
+    for i in range(len(text) - 1, -1, -1):          # the parenthesis that matches the final one
+        ch = text[i]
+        if ch in ')]}':
+            d += 1
+        elif ch in '([{':
+            d -= 1
+            if d == 0:
+                if ch != '(' or i == 0:
+                    return None
+                return text[:i], [a.strip() for a in _split_top(text[i + 1:-1], ', ') if a.strip()]
+    return None
+
+
+def strip_parens(t):
+    t = (t or '').strip()
+    while t.startswith('(') and t.endswith(')') and _balanced(t[1:-1]):
+        t = t[1:-1].strip()
+    return t
+
+
+def concat_parts(text):
+    """Operands of a concatenation however it was spelled: '(a + b)' (opaque values), 'a b' (byte items) or 'join([a, b])'."""
+    t = strip_parens(norm_term(text or ''))
+    parts = _split_top(t, ' + ')
+    if len(parts) > 1:
+        out = []
+        for p in parts:
+            out.extend(concat_parts(p))
+        return out
+    return split_items(t) if ' ' in t and len(split_items(t)) > 1 else [t]
+
+
+def int_equiv(text, reference, samples):
+    """Does the rendered integer expression `text` equal reference(**values) on every combination of sample points?
+
+    samples: {sub-term text: (placeholder name, [values])}.  Folding is done by the checker's own evaluator (sa/s2kshape.fold) on
+    the parsed expression; no repository code runs.  Returns True / False, or None when the expression is not closed over the
+    given sub-terms (something else is mixed in)."""
+    from .s2kshape import fold, _NoFold
+    t = text or ''
+    names = []
+    for sub, (ph, vals) in sorted(samples.items(), key=lambda kv: -len(kv[0])):
+        t = t.replace(sub, ph)
+        names.append((ph, vals))
+    try:
+        node = ast.parse(t.strip(), mode='eval').body
+    except SyntaxError:
+        return None
+    node = _IntCalls().visit(node)
+    try:
+        for combo in itertools.product(*[v for _, v in names]):
+            env = dict(zip([n for n, _ in names], combo))
+            if fold(node, env) != reference(**env):
+                return False
+    except (_NoFold, ZeroDivisionError, TypeError, ValueError):
+        return None
+    return True
+
+
+class _IntCalls(ast.NodeTransformer):
+    """Integer idioms over non-negative operands: int(a / b) and divmod(a, b)[0] are a // b, divmod(a, b)[1] is a % b,
+    int(x) of an integer expression is the expression."""
+    OPS = {'floordiv': ast.FloorDiv, 'add': ast.Add, 'sub': ast.Sub, 'mul': ast.Mult, 'mod': ast.Mod, 'lshift': ast.LShift,
+           'rshift': ast.RShift, 'and_': ast.BitAnd, 'or_': ast.BitOr, 'xor': ast.BitXor, 'pow': ast.Pow}
+
+    def visit_Call(self, node):
+        self.generic_visit(node)
+        if isinstance(node.func, ast.Attribute) and isinstance(node.func.value, ast.Name) and node.func.value.id == 'operator' and \
+                node.func.attr in self.OPS and len(node.args) == 2 and not node.keywords:
+            return ast.BinOp(left=node.args[0], op=self.OPS[node.func.attr](), right=node.args[1])
+        if isinstance(node.func, ast.Name) and node.func.id == 'int' and len(node.args) == 1 and not node.keywords:
+            a = node.args[0]
+            if isinstance(a, ast.BinOp) and isinstance(a.op, ast.Div):
+                return ast.BinOp(left=a.left, op=ast.FloorDiv(), right=a.right)
+            return a
+        return node
+
+    def visit_Subscript(self, node):
+        self.generic_visit(node)
+        v = node.value
+        if isinstance(v, ast.Call) and isinstance(v.func, ast.Name) and v.func.id == 'divmod' and len(v.args) == 2 and not v.keywords and \
+                isinstance(node.slice, ast.Constant) and node.slice.value in (0, 1):
+            return ast.BinOp(left=v.args[0], op=ast.FloorDiv() if node.slice.value == 0 else ast.Mod(), right=v.args[1])
+        return node
+
+
+# ------------------------------------------------------------------------------------------------ conditions as boolean functions
+class BoolFn(object):
+    """Truth-table view of a rendered condition text (as produced by the interpreter's cond_text / EACH filters).
+
+    The text is read by its own structure (balanced brackets; ` or `, ` and `, `not `, comparison operators at the top level), so any
+    term syntax may occur inside the atoms.  Atoms: equality of two terms (orientation and ==/!= normalised), `is` / `in` tests,
+    isinstance(x, T) per class T, anything else by its text.  `implies(atom)` / `holds_when(atoms)` are decided over all assignments
+    of the atoms that occur."""
+    def __init__(self, text):
+        self.text = text
+        self.atoms = []
+        if not _balanced(text):
+            raise AnalysisError('condition is not a boolean expression the checker can read: %s' % text[:120])
+        self.form = self._build(text)
+
+    @staticmethod
+    def eq(a, b):
+        return ('eq', frozenset([strip_parens(a), strip_parens(b)]))
+
+    @staticmethod
+    def isinst(x, t):
+        return ('isinstance', strip_parens(x), t)
+
+    def _atom(self, a):
+        if a not in self.atoms:
+            self.atoms.append(a)
+        return ('atom', a)
+
+    def _build(self, t):
+        t = strip_parens(t)
+        for word, kind in ((' or ', 'or'), (' and ', 'and')):
+            parts = _split_top(t, word)
+            if len(parts) > 1:
+                return (kind, [self._build(p) for p in parts])
+        if t.startswith('not '):
+            return ('not', self._build(t[4:]))
+        if t in ('True', 'False'):
+            return ('const', t == 'True')
+        for op, kind, neg in ((' == ', 'eq', False), (' != ', 'eq', True), (' is not ', 'is', True), (' is ', 'is', False),
+                              (' not in ', 'in', True), (' in ', 'in', False)):
+            parts = _split_top(t, op)
+            if len(parts) == 2:
+                l, r = strip_parens(parts[0]), strip_parens(parts[1])
+                a = self._atom((kind, frozenset([l, r])) if kind != 'in' else (kind, l, r))
+                return ('not', a) if neg else a
+        c = split_args(t)
+        if c is not None and c[0] == 'isinstance' and len(c[1]) == 2:
+            ts = c[1][1]
+            ts = [x.strip() for x in _split_top(ts[1:-1], ', ')] if ts.startswith('(') and ts.endswith(')') else [ts]
+            parts = [self._atom(('isinstance', strip_parens(c[1][0]), x.split('.')[-1])) for x in ts if x]
+            return parts[0] if len(parts) == 1 else ('or', parts)
+        if c is not None and c[0] == 'bool' and len(c[1]) == 1:
+            return self._build(c[1][0])
+        return self._atom(('expr', t))
+
+    def _ev(self, f, asg):
+        k = f[0]
+        if k == 'const':
+            return f[1]
+        if k == 'atom':
+            return asg[f[1]]
+        if k == 'not':
+            return not self._ev(f[1], asg)
+        vals = [self._ev(x, asg) for x in f[1]]
+        return all(vals) if k == 'and' else any(vals)
+
+    def _assignments(self, extra=()):
+        atoms = list(self.atoms) + [a for a in extra if a not in self.atoms]
+        if len(atoms) > 12:
+            raise AnalysisError('condition with %d atoms: %s' % (len(atoms), self.text[:120]))
+        for combo in itertools.product((False, True), repeat=len(atoms)):
+            yield dict(zip(atoms, combo))
+
+    def implies(self, atom):
+        """Whenever the condition holds, `atom` holds."""
+        return all(asg[atom] for asg in self._assignments([atom]) if self._ev(self.form, asg))
+
+    def holds_when(self, atoms):
+        """The condition can hold when all `atoms` hold (it does not exclude the intended element)."""
+        return any(self._ev(self.form, asg) for asg in self._assignments(atoms) if all(asg[a] for a in atoms))
+
+    def depends_only_on(self, atoms):
+        """The condition is the conjunction of `atoms` and nothing else decides it."""
+        for asg in self._assignments(atoms):
+            if self._ev(self.form, asg) != all(asg[a] for a in atoms):
+                return False
+        return True
+
+
+# ------------------------------------------------------------------------------------------------ entropy sources
 ENTROPY_PATTERNS = [
     r'^os\.urandom\((?P<n>.+)\)$',
     r'^(?P<alg>.+)\.gen_iv\(\)$',
@@ -12,6 +453,98 @@ ENTROPY_PATTERNS = [
     r'^rsa\.generate_private_key\(.+\)$',
     r'^dsa\.generate_private_key\(.+\)$',
 ]
+
+
+def _operand_before(text, idx):
+    """The operand that ends at text[idx] (exclusive): identifiers, attribute dots and balanced brackets, scanned backwards."""
+    i, d = idx, 0
+    while i > 0:
+        ch = text[i - 1]
+        if ch in ')]}':
+            d += 1
+        elif ch in '([{':
+            if d == 0:
+                break
+            d -= 1
+        elif d == 0 and not (ch.isalnum() or ch in '_.$<>#'):
+            break
+        i -= 1
+    return text[i:idx]
+
+
+def fresh_draw(text):
+    """('iv' | 'key', <cipher text>) when `text` is, as a whole, one fresh draw of a cipher's block / key size:
+    <cipher>.gen_iv() / <cipher>.gen_key(), or os.urandom(n) with n equal to <cipher>.block_size // 8 / <cipher>.key_size // 8 at
+    every size (folded by the checker) - what gen_iv / gen_key themselves are required to be by C13.1.  None otherwise."""
+    t = (text or '').strip()
+    m = re.match(r'^(?P<alg>.+)\.gen_(?P<kind>iv|key)\(\)$', t)
+    if m and _balanced(m.group('alg')):
+        return m.group('kind'), m.group('alg')
+    c = split_args(t)
+    if c is not None and c[0] == 'os.urandom' and len(c[1]) == 1:
+        n = c[1][0]
+        for attr, kind in (('.block_size', 'iv'), ('.key_size', 'key')):
+            i = n.find(attr)
+            if i > 0:
+                alg = _operand_before(n, i)
+                if alg and int_equiv(n, lambda B: B // 8, {alg + attr: ('B', [64, 128, 192, 256])}) is True:
+                    return kind, alg
+    return None
+
+
+def n_draws(state):
+    """Number of entropy-source calls made on this path (gen_iv / gen_key / os.urandom / key generators)."""
+    return sum(len(draws(state, x)) for x in ('gen_iv', 'gen_key', 'urandom', 'generate', 'generate_private_key'))
+
+
+def random_prefix(items, alg, data):
+    """RFC 4880 5.13 prefix: items start with <one fresh block-size draw of `alg`> <its last two octets> <data>.
+    -> the text of the draw, or None."""
+    from .interp import sl
+    if len(items) >= 3 and fresh_draw(items[0]) == ('iv', alg) and items[1] == sl(items[0], (-2, '')) and items[2] == data:
+        return items[0]
+    return None
+
+
+STDLIB = ('os', 'zlib', 'bz2', 'binascii', 'hashlib', 'functools', 'operator')
+
+
+def qualify_imports(text, module):
+    """`from zlib import compress as zc`: a bare zc(...) in a value text is zlib.compress(...) (standard library names only)."""
+    for alias, imp in getattr(module, 'imports', {}).items():
+        if text and imp[1] is not None and imp[0] in STDLIB and alias != '*':
+            text = re.sub(r'(?<![A-Za-z0-9_.\'"])%s(?![A-Za-z0-9_\'"=])' % re.escape(alias), '%s.%s' % (imp[0], imp[1]), text)
+    return text
+
+
+def zero_octets(text):
+    """The length expression n when `text` denotes n zero octets: b'\\0' * n, bytes(n), (0).to_bytes(n, 'big'), b''.ljust(n, b'\\0')."""
+    t = norm_term(text or '')
+    for head in ('REP(C(00);', 'INT('):
+        if t.startswith(head) and t.endswith(')') and _balanced(t[len(head):-1]):
+            inner = t[len(head):-1]
+            if head == 'INT(':
+                parts = _split_top(inner, ';')
+                return parts[0] if len(parts) == 2 and parts[1] == '0' else None
+            return inner
+    c = split_args(t)
+    if c is not None and c[0] in ('C().ljust', '.ljust', "C().rjust", '.rjust') and len(c[1]) == 2 and c[1][1] == 'C(00)':
+        return c[1][0]
+    return None
+
+
+def qualify_urandom(text, module):
+    """`from os import urandom`: a bare urandom(...) in a value text is os.urandom(...)."""
+    imp = getattr(module, 'imports', {}).get('urandom')
+    if text and imp is not None and imp[0] == 'os' and imp[1] == 'urandom':
+        return re.sub(r'(?<![A-Za-z0-9_.])urandom\(', 'os.urandom(', text)
+    return text
+
+
+def is_urandom_of(text, nbytes, module=None):
+    """Is `text`, as a whole, os.urandom(<expression that folds to nbytes>)?"""
+    c = split_args(qualify_imports(text, module) if module is not None else (text or ''))
+    return c is not None and c[0] == 'os.urandom' and len(c[1]) == 1 and int_equiv(c[1][0], lambda: nbytes, {}) is True
 
 
 def entropy_call(text):
@@ -48,7 +581,7 @@ def strip_calls(text, allowed):
     while changed:
         changed = False
         for name in allowed:
-            for m in re.finditer(r'(?<![A-Za-z0-9_])((?:[A-Za-z_][A-Za-z0-9_\[\]\'"]*\.)*%s)\(' % re.escape(name), out):
+            for m in re.finditer(r'(?<![A-Za-z0-9_])((?:[A-Za-z_<][A-Za-z0-9_\[\]\'"<>#]*\.)*%s)\(' % re.escape(name), out):
                 start = m.start()
                 j = m.end()
                 depth = 1
@@ -67,27 +600,114 @@ def strip_calls(text, allowed):
     return out
 
 
-def leaks(state, name, allowed_calls, ignore_targets=()):
+def leaks(state, name, allowed_calls, ignore_targets=(), sanitizers=None, substring=False, global_names=()):
     """Places where `name` escapes on this path other than through an allowed (encrypting) call:
-       attribute stores, |= , return value, yields, and calls that are not in `allowed_calls`."""
+       attribute stores, |= , return value, yields, and calls that are not in `allowed_calls`.
+
+       `allowed_calls`: callees the value may be handed to.  `sanitizers` (default: allowed_calls): callees whose RESULT no
+       longer exposes the value (encryption, key wrap) - a copy such as bytes(key) is allowed as a call but its result still is
+       the key."""
+    if sanitizers is None:
+        sanitizers = allowed_calls
+    if substring:           # `name` is a term (e.g. '<cipher>.gen_key()'), not an identifier
+        def mentions(text, name):
+            return name in text
+    else:
+        mentions = globals()['mentions']
     out = []
     for path, val, line, _ in state.stores:
         if path in ignore_targets:
             continue
-        if mentions(strip_calls(val, allowed_calls), name):
+        if mentions(strip_calls(val, sanitizers), name):
             out.append(('store', '%s = %s' % (path, val), line))
     for ev in state.events:
-        if ev[0] == 'ior' and (mentions(ev[1], name) or mentions(strip_calls(ev[2], allowed_calls), name)):
+        if ev[0] == 'ior' and (mentions(ev[1], name) or mentions(strip_calls(ev[2], sanitizers), name)):
             out.append(('ior', '%s |= %s' % (ev[1], ev[2]), ev[3]))
-        if ev[0] == 'return' and mentions(strip_calls(ev[1], allowed_calls), name):
+        if ev[0] == 'return' and mentions(strip_calls(ev[1], sanitizers), name):
             out.append(('return', 'return %s' % ev[1], ev[2]))
-        if ev[0] == 'yield' and mentions(strip_calls(ev[1], allowed_calls), name):
+        if ev[0] == 'yield' and mentions(strip_calls(ev[1], sanitizers), name):
             out.append(('yield', 'yield %s' % ev[1], ev[2]))
+        if ev[0] == 'raise' and mentions(strip_calls(ev[1], sanitizers), name):
+            out.append(('raise', 'raise %s' % ev[1], ev[2]))
+        if ev[0] == 'assign' and ev[1] in global_names and mentions(strip_calls(ev[2], sanitizers), name):
+            out.append(('global', 'global %s = %s' % (ev[1], ev[2]), ev[3]))
     for ft, args, kw, line, node in state.calls:
         base = ft.split('.')[-1]
         if base in allowed_calls or ft in allowed_calls:
             continue
+        fnode = getattr(node, 'func', None)
+        if base in ('append', 'extend', 'join', 'insert') and isinstance(fnode, ast.Attribute) and \
+                isinstance(fnode.value, (ast.Name, ast.Constant)) and \
+                not re.match(r'^(<[A-Za-z0-9_#]+>|[A-Za-z_][A-Za-z0-9_]*)(\.[A-Za-z_][A-Za-z0-9_]*)*$', ft):
+            continue            # building a LOCAL buffer / list (a local whose value is its contents): tracked as a value, not an escape
         allargs = list(args) + list(kw.values())
-        if any(mentions(strip_calls(a, allowed_calls), name) for a in allargs):
+        if any(mentions(strip_calls(a, sanitizers), name) for a in allargs):
             out.append(('call', '%s(%s)' % (ft, ', '.join(allargs)), line))
+    return out
+
+
+def captured_leaks(fi, state, name):
+    """Escapes of the secret that are not values at all: a deferred scope that closes over it and is kept (a lambda / nested function /
+    generator expression / class body assigned to an attribute or item, returned, or or-ed into the result), the message of an `assert`,
+    a snapshot of the local namespace (locals() / vars()).  Decided on the function's AST with the path's final environment telling which
+    locals hold the secret (def-use, not text): -> [(kind, text, line)]."""
+    tainted = {k for k, v in state.env.items() if re.match(r'^[A-Za-z_][A-Za-z0-9_]*$', k) and v is not None and mentions(render(v), name)}
+    if not tainted:
+        return []
+    node = fi.node
+    scopes = {}
+    for n in ast.walk(node):
+        if isinstance(n, (ast.FunctionDef, ast.AsyncFunctionDef, ast.ClassDef)) and n is not node:
+            scopes[n.name] = n
+
+    def free_tainted(d):
+        bound = set()
+        if isinstance(d, (ast.Lambda, ast.FunctionDef, ast.AsyncFunctionDef)):
+            a = d.args
+            bound = {x.arg for x in a.posonlyargs + a.args + a.kwonlyargs} | ({a.vararg.arg} if a.vararg else set()) | ({a.kwarg.arg} if a.kwarg else set())
+            inner = list(a.defaults) + [k for k in a.kw_defaults if k is not None]       # evaluated now, kept with the function
+            hits = {x.id for e in inner for x in ast.walk(e) if isinstance(x, ast.Name) and x.id in tainted}
+            body = d.body if isinstance(d.body, list) else [d.body]
+        elif isinstance(d, ast.ClassDef):
+            hits, body = set(), d.body
+        else:
+            hits = set()
+            for g in d.generators:
+                bound |= {x.id for x in ast.walk(g.target) if isinstance(x, ast.Name)}
+            body = [d]
+        for b in body:
+            for x in ast.walk(b):
+                if isinstance(x, ast.Name) and isinstance(x.ctx, ast.Load) and x.id in tainted and x.id not in bound:
+                    hits.add(x.id)
+        return hits
+
+    def deferred_in(expr):
+        out = []
+        for x in ast.walk(expr):
+            if isinstance(x, (ast.Lambda, ast.GeneratorExp)):
+                out.append(x)
+            elif isinstance(x, ast.Name) and isinstance(x.ctx, ast.Load) and x.id in scopes:
+                out.append(scopes[x.id])
+        return out
+
+    out = []
+    for n in ast.walk(node):
+        kept = None
+        if isinstance(n, (ast.Assign, ast.AugAssign, ast.AnnAssign)) and getattr(n, 'value', None) is not None:
+            tg = n.targets if isinstance(n, ast.Assign) else [n.target]
+            flat = [e for t in tg for e in (t.elts if isinstance(t, (ast.Tuple, ast.List)) else [t])]
+            if any(isinstance(t, (ast.Attribute, ast.Subscript)) for t in flat) or \
+                    (isinstance(n, ast.AugAssign) and isinstance(n.op, ast.BitOr)):
+                kept = n.value
+        elif isinstance(n, ast.Return) and n.value is not None:
+            kept = n.value
+        if kept is not None:
+            for d in deferred_in(kept):
+                h = free_tainted(d)
+                if h:
+                    out.append(('closure', '%s keeps %s' % (ast.unparse(n)[:120], sorted(h)), n.lineno))
+        if isinstance(n, ast.Assert) and n.msg is not None and any(isinstance(x, ast.Name) and x.id in tainted for x in ast.walk(n.msg)):
+            out.append(('assert', ast.unparse(n)[:160], n.lineno))
+        if isinstance(n, ast.Call) and isinstance(n.func, ast.Name) and n.func.id in ('locals', 'vars') and not n.args and not n.keywords:
+            out.append(('locals', 'the local namespace (which holds the secret) is captured by %s()' % n.func.id, n.lineno))
     return out
